@@ -17,42 +17,7 @@ Open Scope N_scope.
    report_unbuilt is empty), every declared static file is confirmed (end_of_phase_b); then finalize
    ran (revert_optional_steps, delete_detached). *)
 
-(* a build issues OpDispatch only for steps that satisfy the dispatch predicate *)
-Fixpoint dispatch_enabled (ops : list op) (s : st) : Prop :=
-  match ops with
-  | [] => True
-  | o :: ops' =>
-    match o with OpDispatch l => dispatch_guard l s = true | _ => True end /\
-    dispatch_enabled ops' (apply_op s o)
-  end.
-Definition consumes (s : st) (l f : str) : Prop := has_dep (KFile, f) (KStep, l) s = true.
-Definition produces (s : st) (l f : str) : Prop := has_dep (KStep, l) (KFile, f) s = true.
-
-Definition C04_full : Prop :=
-  forall (cap : N) (hist : list xop),
-    successful_history cap hist ->
-    let q := run_xops hist (init_st cap) in
-    (* rebuilding with nothing changed: restart flavour, watch flavour *)
-    (forall rehash, unchanged_b q rehash = true ->
-       run_ops (startup_ops q [] rehash) q = q /\ dispatchable q = [] /\
-       revert_optional q = Ok q /\ delete_detached q = Ok q) /\
-    (forall rehash, unchanged_watch_b q rehash = true ->
-       run_ops (watch_ops q rehash) q = q /\ dispatchable q = [] /\
-       revert_optional q = Ok q /\ delete_detached q = Ok q) /\
-    (* after editing source files E (G: steps owning a glob pattern that matches an edited
-       path): every executed command is justified *)
-    (forall (E : list (str * option N)) (G : list str) (build : list op),
-       forallb (fun ph => match fstate_of (fst ph) q with
-                          | Some FConfirmed | Some FMissing => true | _ => false end) E = true ->
-       let q1 := run_ops (map (fun ph => OpUpdateHashes CExternal [ph]) E ++ map OpMarkStepPending G) q in
-       dispatch_enabled build q1 ->
-       let s' := run_ops build q1 in
-       forall l, In l (executed build q1) ->
-         (exists f, In f (map fst E) /\ consumes q l f) \/ In l G \/
-         (exists l' f, In l' (executed build q1) /\ l' <> l /\
-                       (produces q l' f \/ produces s' l' f) /\ (consumes q l f \/ consumes s' l f)) \/
-         (exists l', In l' (executed build q1) /\
-                     (creator_of (KStep, l) q = Some (KStep, l') \/ creator_of (KStep, l) s' = Some (KStep, l')))).
+(* dispatch_enabled, consumes, produces and the Definition C04_full are in model/Noop.v. *)
 
 (* ------------------------------------------------------------------------------------------ *)
 (* Proved                                                                                      *)
@@ -181,6 +146,35 @@ Theorem C04_env_aba_detected :
     In l (rescan_env_steps (rescan_env_store true vals curB s) curA s').
 Proof. exact env_aba_detected. Qed.
 
+(* Several tracked variables, several of them changed at once (also several of one step): after the
+   start every row of every attached step holds the value the start saw, whether the row was found
+   changed or not; rows, steps and names are kept; a step is rerun iff one of its rows changed. *)
+Theorem C04_env_store_complete :
+  forall (s : st) (vals : list envval) (cur : str -> option N),
+    (forall r', In r' (rescan_env_store true vals cur s) -> attached (KStep, ev_step r') s = true ->
+                ev_value r' = cur (ev_name r')) /\
+    map ev_step (rescan_env_store true vals cur s) = map ev_step vals /\
+    map ev_name (rescan_env_store true vals cur s) = map ev_name vals /\
+    (forall l, In l (rescan_env_steps vals cur s) <->
+               exists r, In r vals /\ ev_step r = l /\ env_row_changed cur s r = true).
+Proof.
+  intros s vals cur. split; [intros r'; apply env_store_complete | apply env_store_shape].
+Qed.
+
+(* Hence a second start in the same environment finds nothing changed, whatever subset of the
+   variables had changed before (A,B -> A',B' -> A,B' included: each start compares with the values
+   the previous start recorded). *)
+Theorem C04_env_second_start_quiet :
+  forall (s s' : st) (vals : list envval) (cur : str -> option N),
+    (forall l, attached (KStep, l) s' = true -> attached (KStep, l) s = true) ->
+    rescan_env_steps (rescan_env_store true vals cur s) cur s' = [].
+Proof.
+  intros s s' vals cur Hatt. apply env_unchanged_steps. unfold env_unchanged_b. apply forallb_forall.
+  intros r' Hin. apply negb_true_iff. unfold env_row_changed.
+  destruct (attached (KStep, ev_step r') s') eqn:Ha; [|reflexivity]. cbn [andb]. apply negb_false_iff.
+  rewrite (env_store_complete s vals cur r' Hin (Hatt _ Ha)). apply on_eqb_refl.
+Qed.
+
 (* ---- the cone ---------------------------------------------------------------------------- *)
 
 (* Applying the EXTERNAL re-hash results of source files (CONFIRMED or MISSING static files) to ANY
@@ -300,13 +294,23 @@ Proof.
   split; [exact H3|]. split; [exact H5|]. split; [exact H6|]. split; [exact H7 | exact ExO.u_outside_cone].
 Qed.
 
+(* The full sentence as written (Definition C04_full, model/Noop.v) is FALSE of the model, and of the
+   code: the witness is the history of C04_cone_idle_optional_clause_needed (an unused OPTIONAL step
+   declared by one plan becomes needed because the edited script of ANOTHER plan now consumes its
+   output; it is executed without consuming an edited file or an output of an executed step and
+   without having been declared by an executed step).  Replayed on the real director by the E3
+   oracle (c04_e3.optional_upstream_item), findings.d/C04-optional-upstream.json. *)
+Theorem C04_full_refuted : ~ C04_full.
+Proof. exact full_refuted. Qed.
+
 (* The hand-written model agrees with the facts regenerated from the source on every run:
    Graph.transition is workflow._HASH_TRANSITIONS (all 64 keys, present or absent); a re-hash
    result reaches update_file_hashes exactly when the rule of Executor._run_hash_job says so;
    startup.rescan_files leaves out PLANNED and VOLATILE and confirms UNCONFIRMED; resume_from_db
    awaits reset_interrupted_steps, watch_known_dirs, rescan_env_vars, rescan_files, rescan_nglobs;
    rescan_env_vars stores the value it saw; a CONFIRMED result for an UNCONFIRMED file is never
-   dropped as stale. *)
+   dropped as stale; validate_dynamic_job with unchanged inputs sets PENDING with the deferred flag of
+   the source (true since fix d760e3e). *)
 Theorem C04_model_matches_generated_facts :
   (forallb transition_row_ok gen_transitions = true /\ length gen_transitions = 64%nat) /\
   (forall s cu ph r, find_file (fst ph) s = Some r ->
@@ -319,8 +323,9 @@ Theorem C04_model_matches_generated_facts :
    fstate_code FUnconfirmed = gen_rescan_confirm_state /\
    gen_startup_sequence = [1; 2; 3; 4; 5]) /\
   (gen_env_rescan_stores_seen_value = true /\
-   existsb (N.eqb (fstate_code FUnconfirmed)) gen_confirmation_kept_states = gen_drops_stale_confirmation).
-Proof. exact (conj transitions_tie (conj hash_job_rule_tie (conj rescan_rule_tie env_rule_tie))). Qed.
+   existsb (N.eqb (fstate_code FUnconfirmed)) gen_confirmation_kept_states = gen_drops_stale_confirmation) /\
+  (forall l s, step_op (OpValidatePending l) s = set_sstate l SPending gen_validate_unchanged_deferred s).
+Proof. exact (conj transitions_tie (conj hash_job_rule_tie (conj rescan_rule_tie (conj env_rule_tie validate_rule_tie)))). Qed.
 
 (* ------------------------------------------------------------------------------------------ *)
 (* Non-vacuity: a concrete successful history                                                  *)
